@@ -1,6 +1,7 @@
 package feesx
 
 import (
+	"encoding/hex"
 	"encoding/json"
 	"math/big"
 	"math/rand/v2"
@@ -102,3 +103,5 @@ func parseU64s(s [5]string) fees.Dimensions {
 	}
 	return d
 }
+
+func hexDecode(s string) ([]byte, error) { return hex.DecodeString(s) }
